@@ -594,6 +594,9 @@ func (s *DiscoveryServer) SortedClients() []*Connection {
 func (s *DiscoveryServer) AllClients() []*Connection {
 	s.adsClientsMutex.RLock()
 	defer s.adsClientsMutex.RUnlock()
+	if ordered := verifAllClients(s); ordered != nil {
+		return ordered
+	}
 	return maps.Values(s.adsClients)
 }
 
